@@ -241,11 +241,14 @@ WHOLE_KINDS = ['dc', 'dc', 'ac', 'step']
 class B:
     """netlist builder: model lines (sources as `sig <items>`) and Lcapy lines"""
 
+    symbolic = False      # set per case by gen_case: some element values are left symbolic in Lcapy's netlist
+
     def __init__(self, rng, ic, src_kinds, rates=()):
         self.rng, self.ic, self.src_kinds, self.rates = rng, ic, src_kinds, list(rates)
         self.model, self.lcapy, self.n = [], [], {}
         self.wave_kinds = []
         self.has_ic = False
+        self.subs = {}
 
     def name(self, ty):
         self.n[ty] = self.n.get(ty, 0) + 1
@@ -255,7 +258,12 @@ class B:
         nm = self.name(ty)
         l = '%s %s %s' % (nm, ' '.join(nodes), ' '.join(fs(v) if not isinstance(v, str) else v for v in vals))
         self.model.append(l.strip())
-        self.lcapy.append(l.strip())
+        if B.symbolic and ty in ('R', 'C', 'L') and len(vals) == 1 and self.rng.random() < 0.5 and not isinstance(vals[0], str):
+            # Lcapy uses the component name as its (positive) symbolic value; the value is substituted into the result
+            self.lcapy.append('%s %s' % (nm, ' '.join(nodes)))
+            self.subs[nm] = Fraction(vals[0])
+        else:
+            self.lcapy.append(l.strip())
         return nm
 
     def react(self, ty, nodes, val, p_ic=0.6):
@@ -281,7 +289,7 @@ class B:
 
     def case(self, template, poles):
         return {'template': template, 'lines': self.model, 'lcapy': self.lcapy, 'has_ic': self.has_ic,
-                'waves': sorted(set(self.wave_kinds)), 'poles': poles}
+                'waves': sorted(set(self.wave_kinds)), 'poles': poles, 'subs': {k: fstr(v) for k, v in self.subs.items()}}
 
 
 def pick_poles(rng):
@@ -426,8 +434,10 @@ def gen_coupled(rng, ic, kinds):
     b = B(rng, ic, kinds)
     b.src('V', ['1', '0'])
     b.add('R', ['1', '2'], r1)
+    sym_was, B.symbolic = B.symbolic, False          # the model takes the exact square root of L1*L2: numeric inductances
     b.react('L', ['2', '0'] if rng.random() < 0.6 else ['0', '2'], l1, p_ic=0.8)
     b.react('L', ['3', '0'] if rng.random() < 0.6 else ['0', '3'], l2, p_ic=0.8)
+    B.symbolic = sym_was
     if rng.random() < 0.3:
         b.src('V', ['4', '0'])
         b.add('R', ['3', '4'], r2)
@@ -458,9 +468,13 @@ class RandGen(gen_netlist.Gen):
     """gen_netlist.Gen with waveform sources (model: `sig <items>`) and no symbolic values"""
 
     def __init__(self, rng, ic, src_kinds, nnodes, nextra, kinds):
-        super().__init__(rng, 'ivp' if ic else 's', nnodes, nextra, kinds, symbolic_prob=0.0)
+        super().__init__(rng, 'ivp' if ic else 's', nnodes, nextra, kinds, symbolic_prob=(0.3 if B.symbolic else 0.0))
         self.src_kinds = src_kinds
         self.waves = []
+
+    def add(self, ty, nodes, value=None, extra_model='', extra_lcapy=None, symbolic_ok=True):
+        # only the (positive) R, C, L values are left symbolic: Lcapy's symbols are positive
+        return super().add(ty, nodes, value, extra_model, extra_lcapy, symbolic_ok and ty in ('R', 'C', 'L'))
 
     def element(self, ty, nodes=None):
         if ty in ('V', 'I'):
@@ -491,7 +505,7 @@ def gen_random(rng, ic, kinds, maxreact):
             continue
         has_ic = any(l[0] in 'CL' and len(l.split()) == 5 for l in c['lines'])
         return {'template': 'random-%d-reactive' % nre, 'lines': c['lines'], 'lcapy': c['lcapy'], 'has_ic': has_ic,
-                'waves': sorted(set(g.waves)), 'poles': 'unknown'}
+                'waves': sorted(set(g.waves)), 'poles': 'unknown', 'subs': {k: fstr(v) for k, v in c['subs'].items()}}
     return None
 
 
@@ -530,7 +544,7 @@ def gen_switched(rng):
         sw_type = 'nc'
         lines = ['V1 1 0 dc %s' % fs(A), 'SW1 1 2 nc 0', 'R1 2 3 %s' % fs(rr * al), 'L1 3 4 %s' % fs(l), 'C1 4 0 %s' % fs(c),
                  'R2 2 0 %s' % fs(rr * (1 - al))]
-    return {'template': 'switched-' + shape, 'switched': lines, 'sw_type': sw_type, 'waves': ['dc'], 'poles': 'unknown', 'whole_axis': False}
+    return {'template': 'switched-%s:%s' % (shape, sw_type), 'switched': lines, 'sw_type': sw_type, 'waves': ['dc'], 'poles': 'unknown', 'whole_axis': False}
 
 
 def switch_line(l, closed):
@@ -542,6 +556,7 @@ def gen_case(rng):
     if rng.random() < 0.12:
         return gen_switched(rng)
     ic = rng.random() < 0.45
+    B.symbolic = rng.random() < 0.25
     whole = (not ic) and rng.random() < 0.2
     kinds = WHOLE_KINDS if whole else CAUSAL_KINDS
     tmpl = rng.choice(['random1', 'random1', 'random1', 'random2', 'series', 'series', 'parallel', 'cascade', 'cascade',
@@ -588,8 +603,8 @@ def run(chk, replay=None):
     tsym = lt.sympy
     state.current_sign_convention = 'passive'
 
-    ncases = 70 if quick else 700
-    budget = 140 if quick else 1000          # seconds for the generated cases
+    ncases = 110 if quick else 900
+    budget = 130 if quick else 1000          # seconds for the generated cases
     chk.coverage['rule'] = ('each case = netlist x source waveforms x initial conditions: templates random-1-reactive / random-2-reactive '
                             '(gen_netlist with R,C,L,V,I,E,G,F,H,TF), series / parallel RLC with chosen poles (real, complex-conjugate over the '
                             'Gaussian rationals, repeated), cascades isolated by E/G/F/H (repeated poles across sections), coupled inductors '
@@ -608,9 +623,15 @@ def run(chk, replay=None):
         cct = Circuit('\n'.join(case['lcapy']))
         cnv = TCanon(S, tsym, smp)
         sigs, rep = {}, {}
+        subs = {k: S.Rational(Fraction(v).numerator, Fraction(v).denominator) for k, v in case.get('subs', {}).items()}
 
         def conv(what, expr):
             e = expr.sympy if hasattr(expr, 'sympy') else S.sympify(expr)
+            if subs:
+                # symbolic element values: substitute by NAME (Lcapy's symbols carry assumptions), then let SymPy evaluate
+                e = e.subs({sy: subs[sy.name] for sy in e.free_symbols if sy.name in subs})
+                if e.free_symbols - {tsym}:
+                    raise Skip('free-symbols-left', what)
             if e.has(S.nan) or e.has(S.zoo) or e.has(S.oo):
                 raise Skip('nan-in-result', what)
             if any(a.is_Pow and a.exp.is_Rational and not a.exp.is_Integer for a in S.preorder_traversal(e)):
@@ -659,6 +680,7 @@ def run(chk, replay=None):
         key_lines = tuple(case['lines'])
         chk.count('template', case['template'])
         chk.count('initial-conditions', 'yes' if case['has_ic'] else 'no')
+        chk.count('element-values', 'some-symbolic' if case.get('subs') else 'numeric')
         for wv in case['waves']:
             chk.count('waveform', wv)
         for l in case['lines']:
@@ -689,12 +711,13 @@ def run(chk, replay=None):
         chk.count('result-form', 'guarded' if guarded else ('whole-axis' if has_pre else 'causal'))
         assign = ' | '.join('%s %s' % (k, sig_tokens(sg)) for k, sg in sigs.items())
         reported = ' | '.join('%s %s' % (k, sig_tokens(sg)) for k, sg in rep.items())
-        jcase = {k: case[k] for k in ('template', 'lines', 'lcapy', 'has_ic', 'waves', 'poles', 'whole_axis', 'switched') if k in case}
+        jcase = {k: case[k] for k in ('template', 'lines', 'lcapy', 'has_ic', 'waves', 'poles', 'whole_axis', 'switched', 'subs') if k in case}
         lc_out = {k: sg['text'] for k, sg in list(sigs.items())}
         if idx < 4:
             chk.sample({'netlist': case['lcapy'], 'signals': lc_out, 'items': {k: sig_tokens(sg) for k, sg in sigs.items()}})
         kinds = sorted({ctype(l.split()[0]) for l in case['lines']})
-        keybase = {'template': case['template'].split(':')[0], 'has_ic': case['has_ic'], 'coupled': 'K' in kinds}
+        keybase = {'template': case['template'].split(':')[0], 'has_ic': case['has_ic'], 'coupled': 'K' in kinds,
+                   'switched': 'switched' in case, 'symbolic': bool(case.get('subs'))}
 
         def cex(kind, extra, verdict, what):
             ncex[0] += 1
@@ -878,7 +901,6 @@ def run(chk, replay=None):
                 break
             case = gen_case(rng)
             if case is not None and 'switched' in case:
-                chk.count('template', case['template'] + ':' + case['sw_type'])
                 case = resolve_switched(case)
             if case is None:
                 continue
